@@ -227,6 +227,35 @@ func (ii *InstInfo) addCodecContracts(p *Program, cs *ContractSet, prop string) 
 			add(ct)
 		case name == "ToWire" && len(f.Params) == 1 && f.Signature.Results().Len() == 2:
 			ii.addToWire(f, fields, kind, stt, named, prop, add)
+		case name == "FromWire" && len(f.Params) == 2 && f.Signature.Results().Len() == 1:
+			// the schema clauses that do not depend on routing: declared defaults are
+			// filled in, a union has exactly one member (value routing is not an obligation)
+			ct := newContract(f, prop)
+			ct.RegionMerge = true
+			ct.Requires = append(ct.Requires, cl("requires", "", recv+" != nil"))
+			ct.Modifies = append(ct.Modifies, cl("modifies", "", "all"))
+			n := 0
+			for i, fl := range fields {
+				if fl.Def == nil {
+					continue
+				}
+				switch stt.Field(i).Type().Underlying().(type) {
+				case *types.Pointer, *types.Slice, *types.Map:
+					ct.Ensures = append(ct.Ensures, cl("ensures", "default_"+fl.Name, fmt.Sprintf("err == nil ==> %s.%s != nil", recv, stt.Field(i).Name())))
+					n++
+				}
+			}
+			if kind == "union" && len(fields) > 0 {
+				var terms []string
+				for i := range fields {
+					terms = append(terms, fmt.Sprintf("ite(%s.%s != nil, 1, 0)", recv, stt.Field(i).Name()))
+				}
+				ct.Ensures = append(ct.Ensures, cl("ensures", "arity", "err == nil ==> "+strings.Join(terms, " + ")+" == 1"))
+				n++
+			}
+			if n > 0 {
+				add(ct)
+			}
 		}
 	}
 	ii.addDefaultCtorContracts(cs, prop, all, add)
@@ -715,9 +744,15 @@ func (ii *InstInfo) encodeStruct(f *ssa.Function, n eqNode, ct *Contract, cs *Co
 	// writes the solvers do not finish in time. Only small all-required structs
 	// are verified; the others get an assumed size/prefix contract so that their
 	// users can still be verified, and are listed as outside reach.
-	perField := nOpt == 0 && !hasDefault && len(fields) <= 3 && kind != "union"
+	varWidth := false
+	for _, fl := range fields {
+		if fl.T.K == "string" || fl.T.K == "binary" {
+			varWidth = true // sizes that depend on len(): the sum obligations took 30-50 s
+		}
+	}
+	perField := nOpt == 0 && !hasDefault && !varWidth && len(fields) <= 3 && kind != "union"
 	if !perField {
-		ii.skipped = append(ii.skipped, fmt.Sprintf("%s.Encode: conditional writes or more than 3 fields: byte-level clauses outside reach (contract assumed for its callers)", named.Obj().Name()))
+		ii.skipped = append(ii.skipped, fmt.Sprintf("%s.Encode: conditional writes, string/binary fields or more than 3 fields: byte-level clauses outside reach (contract assumed for its callers)", named.Obj().Name()))
 		ct.Trusted = true
 		ct.Props = nil
 		ct.Ensures = append(ct.Ensures, cl("ensures", "sym", fmt.Sprintf("err == nil ==> wlen(sw) == q0 + ufun(encsz_%s, int64, %s)", ii.eqID(n), recv)))
